@@ -4,6 +4,7 @@ import Chess.Lemmas.FenWrite
 import Chess.Lemmas.FnsEquiv.GameState
 import Chess.Lemmas.FnsEquiv.Piece
 import Chess.Lemmas.FnsEquiv.Position
+import Chess.Lemmas.FnsEquiv.Hash
 
 /-!
 # C04 — the position hash depends only on the position and is stable
@@ -64,3 +65,8 @@ theorem named after the function. -/
 #print axioms Chess.FnsEquiv.GameState_set_en_passant_eq
 #print axioms Chess.FnsEquiv.Piece_as_index_eq
 #print axioms Chess.FnsEquiv.Position_as_usize_eq_of_valid
+
+/-! Second batch of translated functions (C04.T2): the INDEX arithmetic of the two key lookups (`STATE[bitfield]`, `PIECE[sq][kind]`): `GameState::hash` and `Piece::hash` as translated, with the generated key tables plugged in, are the model's `GState.hash` and `Piece.hash`. -/
+#print axioms Chess.FnsEquiv.GameState_hash_eq
+#print axioms Chess.FnsEquiv.Piece_hash_eq
+#print axioms Chess.FnsEquiv.pieceRows_shape
